@@ -621,3 +621,79 @@ def weekdays_run(ck, rule):
     ck.ob(rule, f"{p3.fid} :: weekday specification", not bad,
           f"0..7 accepted (0 and 7 stored as 7 = isoweekday()), everything else refused, on {len(cases)} "
           "specifications" if not bad else '; '.join(bad), p3, p3.node)
+
+
+# --------------------------------------------------------------------------- Const identity run
+def _same_kind(x, y):
+    if type(x) is not type(y):
+        return False
+    if isinstance(x, (tuple, list)):
+        return len(x) == len(y) and all(_same_kind(a, b) for a, b in zip(x, y))
+    return x == y
+
+
+def const_identity_run(ck, rule):
+    """Abstract run of Const.__new__ + Const.__init__ (C01 'constants', C15 'plain constant resolved to the
+    right object'): two constants are created one after the other; afterwards each object must still hold the
+    value - and the kind of value - it was created for.  The pairs are the collisions of Python's
+    equality / hashing: 1 == True == 1.0, 0 == False == 0.0, equal hashes of different values, equal values
+    (sharing is fine), unhashable values (no sharing possible)."""
+    from sa.minieval import MiniEval, Obj, ModuleGlobals
+    prog = ck.prog
+    cls_ = prog.cls('block:Const')
+    new_, init_ = cls_.methods.get('__new__'), cls_.methods.get('__init__')
+    ck.need(rule, new_ is not None and init_ is not None, "Const.__new__ / Const.__init__ not found")
+    pn = [a.arg for a in new_.node.args.posonlyargs + new_.node.args.args]
+    pi = [a.arg for a in init_.node.args.posonlyargs + init_.node.args.args]
+    ck.need(rule, len(pn) == 2 and len(pi) == 2, "unexpected signature of Const.__new__ / __init__")
+
+    class _U:
+        def __repr__(self):
+            return '<UNDEF>'
+    UNDEF = _U()
+    PAIRS = [(1, True), (True, 1), (1, 1.0), (1.0, 1), (0, False), (False, 0), (0, 0.0), (-1, -2),
+             ('a', 'a'), (2, 2), ([1], [1]), ([1], [True]), (None, 0), ('', 0), ((1, 2), (1, 2))]
+    NESTED = [((1,), (True,)), ((0, 'x'), (False, 'x'))]
+    bad, bad_nested, n = [], [], 0
+    for pairs, sink in ((PAIRS, bad), (NESTED, bad_nested)):
+        for a, b in pairs:
+            n += 1
+            instances = {}
+            held = {}
+
+            def create(value):
+                env = {pn[0]: 'CLS', pn[1]: value, 'cls._instances': instances, 'Const._instances': instances,
+                       'super().__new__': lambda c: Obj('Const object'), 'object.__new__': lambda c: Obj('Const object'),
+                       'type': type, 'hash': hash, 'id': id, 'UNDEF': UNDEF}
+                glob = ModuleGlobals(prog, new_.module, {'UNDEF': UNDEF})
+                out = MiniEval(rule, env, globals_=glob).run(new_.node.body)
+                if out[0] != 'return' or not isinstance(out[1], Obj):
+                    return out
+                obj = out[1]
+                env2 = {pi[0]: obj, pi[1]: value, 'UNDEF': UNDEF, 'type': type}
+                me2 = MiniEval(rule, env2, globals_=glob)
+                out2 = me2.run(init_.node.body)
+                if out2[0] != 'return':
+                    return out2
+                if f'{pi[0]}._output' in me2.env:
+                    held[id(obj)] = me2.env[f'{pi[0]}._output']
+                return obj
+            oa_ = create(a)
+            ob_ = create(b)
+            if not isinstance(oa_, Obj) or not isinstance(ob_, Obj):
+                sink.append(f"Const({a!r}) then Const({b!r}): construction ends with {oa_ if not isinstance(oa_, Obj) else ob_}")
+                continue
+            va, vb = held.get(id(oa_), '<unset>'), held.get(id(ob_), '<unset>')
+            if not _same_kind(va, a) or not _same_kind(vb, b):
+                sink.append(f"after Const({a!r}) and then Const({b!r}) the first object holds {va!r} and the "
+                            f"second {vb!r}" + (" (one shared object, re-initialised by the second call)"
+                                                if oa_ is ob_ else ''))
+    ck.abstract_cases += n
+    ck.ob(rule, "block:Const :: abstract run :: equal constants of different kinds", not bad,
+          f"every constant object keeps the value and kind it was created for ({len(PAIRS)} ordered pairs: "
+          f"1/True/1.0, 0/False/0.0, equal hashes, equal values, unhashable values)" if not bad else
+          '; '.join(bad[:2]) + ": every block connected to the first constant now computes with the second one",
+          new_, new_.node)
+    ck.ob(rule, "block:Const :: abstract run :: equal containers with elements of different kinds", not bad_nested,
+          "tuples that compare equal but hold elements of different kinds do not share an object" if not bad_nested
+          else '; '.join(bad_nested[:1]), new_, new_.node)
